@@ -3,7 +3,7 @@
    evaluated on every explored history by the check (harness ledger + the
    destroyed values predicted by the specification). *)
 From SV Require Import Base.ListX Store.Raw Store.RawRefine Store.CleanProps Store.Masked Store.StoreInv Store.Bag Store.Ledger
-  Store.DeadHandle
+  Store.ClearLedger Store.DeadHandle
   World.Env World.WorldSpec World.World World.Simulation World.NoStuck.
 From Coq Require Import Sorting.Permutation.
 
@@ -129,6 +129,20 @@ Theorem C08_entry_api_conserves : forall ms m av e o c, LInvS ms m ->
   exists m', LInvS ms' m' /\ cx_stuck c' = cx_stuck c /\ conserves m m' (entry_ins ms o) (entry_rets o r) c c'.
 Proof. exact entry_conserves. Qed.
 
+(* clear() / Drop of a storage: everything it holds is destroyed, once, and nothing is left - VecStorage,
+   DenseVecStorage (the data vector is a permutation of the map's values), HashMap / BTree storages, null storage *)
+Theorem C08_clear_conserves : forall ms m c, LInvS ms m ->
+  let '(ms', c') := m_clear ms c in
+  LInvS ms' (NM.empty tok) /\ cx_stuck c' = cx_stuck c /\
+  exists d, cx_drops c' = d ++ cx_drops c /\ Permutation d (bag m).
+Proof. exact clear_conserves. Qed.
+
+Theorem C08_get_mut_or_default_conserves : forall ms m av e c, LInvS ms m ->
+  let '(ms', o, c') := st_get_mut_or_default ms av e c in
+  exists m', LInvS ms' m' /\
+    conserves m m' (if present ms av e then [] else [fst (tnorm ms (if ms_unit ms then unit_tok else default_tok))]) [] c c'.
+Proof. exact gmd_conserves. Qed.
+
 Example C08_nonvacuous :
   let s := {| v_len := 6; v_slots := NM.add 5 (SInit (13, 3%Z)) (NM.add 2 (SInit (12, 2%Z)) (NM.add 0 (SInit (11, 1%Z)) (NM.empty slot))) |} in
   rev (cx_drops (snd (vec_clean s [0; 2; 5] cx0))) = [11; 12; 13] /\
@@ -151,3 +165,5 @@ Print Assumptions C08_get_mut_conserves.
 Print Assumptions C08_drain_conserves.
 Print Assumptions C08_deleting_entities_conserves.
 Print Assumptions C08_entry_api_conserves.
+Print Assumptions C08_clear_conserves.
+Print Assumptions C08_get_mut_or_default_conserves.
